@@ -203,6 +203,7 @@ def merge_trace(scs, obs, path):
             line['end'] = o.get('end', 'ok')
             line['san'] = o.get('san', '')
             line['leak'] = o.get('leak', False)
+            line['leakat'] = o.get('leakat', '')
             line['evend'] = o.get('evend', [])
             f.write(json.dumps(line) + '\n')
 
